@@ -582,6 +582,22 @@ def _mutate(name):
             self.Nxx = self.Nxx * 1.0000001 if self.Nxx is not None else None
             return r
         Panel.lb = lb
+    elif name == "repair_bay_cA":               # a later repair of an always-broken method must not raise an alarm
+        from compmech.stiffpanelbay import StiffPanelBay
+        orig = StiffPanelBay.calc_cA
+
+        def calc_cA(self, *a, **k):
+            d = self.__dict__
+            keep = (d.get("beta"), d.get("aeromu"))
+            if d.get("beta") is None:
+                Mach = d["Mach"]
+                d["beta"] = d["rho_air"] * d["V"] ** 2 / (Mach ** 2 - 1) ** 0.5
+                d["aeromu"] = d["beta"] / (Mach * d["speed_sound"]) * (Mach ** 2 - 2) / (Mach ** 2 - 1)
+            try:
+                return orig(self, *a, **k)
+            finally:
+                d["beta"], d["aeromu"] = keep
+        StiffPanelBay.calc_cA = calc_cA
     else:
         raise KeyError(name)
 
